@@ -9,7 +9,9 @@
   * without a limit the ordered result is a permutation of the inserted rows (`ordered_perm`),
     its keys are non-decreasing (`ordered_sorted`), and rows with equivalent keys keep their arrival
     order (`ordered_stable`);
-  * all three are stated on `orderedPieces`, the very function `finish` prints.
+  * all three are stated on `orderedPieces`, the very function `finish` prints;
+  * `repeated_key_irrelevant` — listing a key a second time, in whatever direction, never changes the
+    comparison: the first mention decides.
   What is *not* a theorem here: that the buffered rows of an ORDER BY query are the rows of the same
   query without ORDER BY (walker-level simulation; covered by the CLI correspondence and the oracle
   "permutation of the unordered run"), and the positional-key / unselected-key clauses, which are parser
@@ -86,5 +88,80 @@ theorem orderedPieces_sorted (p : Plan) (hp : p.le = criteriaLe p.cfg.today p.ki
 /-- `Plan.of` builds exactly that order (the hypothesis of the two theorems above is satisfiable) -/
 example (q : Query) (cfg : Config) :
     (Plan.of q cfg).le = criteriaLe (Plan.of q cfg).cfg.today (Plan.of q cfg).kinds (Plan.of q cfg).q.orderingAsc := rfl
+
+/-! ### a key listed twice -/
+
+/-- the two values are tied under key kind `k` -/
+def tied (today : Int) (k : KeyKind) (x y : Str) : Bool := keyLe today k x y && keyLe today k y x
+
+/-- one comparison step, written with `tied` -/
+theorem criteriaLeL_cons (today : Int) (k : KeyKind) (d : Bool) (ks : List KeyKind) (ds : List Bool) (x y : Str) (as bs : List Str) :
+    criteriaLeL today (k :: ks) (d :: ds) (x :: as) (y :: bs) =
+      if tied today k x y then criteriaLeL today ks ds as bs
+      else (if d then keyLe today k x y else keyLe today k y x) := by
+  simp only [criteriaLeL, List.headD_cons, List.tail_cons, tied]
+  cases d <;> simp only [Bool.false_eq_true, if_false, if_true] <;>
+    cases h1 : keyLe today k x y <;> cases h2 : keyLe today k y x <;> simp
+
+/-- a tied key in the middle of the key list can be dropped -/
+theorem tied_key_dropped (today : Int) (k : KeyKind) (x y : Str) (d : Bool) (ht : tied today k x y = true)
+    (K3 : List KeyKind) (D3 : List Bool) (A3 B3 : List Str) :
+    ∀ (K2 : List KeyKind) (D2 : List Bool) (A2 B2 : List Str), K2.length = D2.length → K2.length = A2.length → K2.length = B2.length →
+      criteriaLeL today (K2 ++ k :: K3) (D2 ++ d :: D3) (A2 ++ x :: A3) (B2 ++ y :: B3) =
+      criteriaLeL today (K2 ++ K3) (D2 ++ D3) (A2 ++ A3) (B2 ++ B3)
+  | [], [], [], [], _, _, _ => by
+    simp only [List.nil_append]
+    rw [criteriaLeL_cons, ht]; simp
+  | k2 :: K2, d2 :: D2, a2 :: A2, b2 :: B2, h1, h2, h3 => by
+    simp only [List.cons_append]
+    rw [criteriaLeL_cons, criteriaLeL_cons]
+    rw [tied_key_dropped today k x y d ht K3 D3 A3 B3 K2 D2 A2 B2 (by simpa using h1) (by simpa using h2) (by simpa using h3)]
+  | [], _ :: _, _, _, h1, _, _ => by simp at h1
+  | _ :: _, [], _, _, h1, _, _ => by simp at h1
+  | [], [], _ :: _, _, _, h2, _ => by simp at h2
+  | _ :: _, _ :: _, [], _, _, h2, _ => by simp at h2
+  | [], [], [], _ :: _, _, _, h3 => by simp at h3
+  | _ :: _, _ :: _, _ :: _, [], _, _, h3 => by simp at h3
+
+/-- **a repeated key never changes the order**: if the same column (same kind, same values `x`, `y` in the two
+    rows) is listed again later in the key list, in whatever direction `d'`, the comparison is the one without
+    the repeat — the first mention decides -/
+theorem repeated_key_irrelevant (today : Int) (k : KeyKind) (x y : Str) (d d' : Bool)
+    (K1 K2 K3 : List KeyKind) (D1 D2 D3 : List Bool) (A1 A2 A3 B1 B2 B3 : List Str)
+    (h1 : K1.length = D1.length) (h1a : K1.length = A1.length) (h1b : K1.length = B1.length)
+    (h2 : K2.length = D2.length) (h2a : K2.length = A2.length) (h2b : K2.length = B2.length) :
+    criteriaLeL today (K1 ++ k :: (K2 ++ k :: K3)) (D1 ++ d :: (D2 ++ d' :: D3)) (A1 ++ x :: (A2 ++ x :: A3)) (B1 ++ y :: (B2 ++ y :: B3)) =
+    criteriaLeL today (K1 ++ k :: (K2 ++ K3)) (D1 ++ d :: (D2 ++ D3)) (A1 ++ x :: (A2 ++ A3)) (B1 ++ y :: (B2 ++ B3)) := by
+  induction K1 generalizing D1 A1 B1 with
+  | nil =>
+    cases D1 with
+    | cons _ _ => simp at h1
+    | nil =>
+    cases A1 with
+    | cons _ _ => simp at h1a
+    | nil =>
+    cases B1 with
+    | cons _ _ => simp at h1b
+    | nil =>
+      simp only [List.nil_append]
+      rw [criteriaLeL_cons, criteriaLeL_cons]
+      cases ht : tied today k x y with
+      | false => simp
+      | true =>
+        simp only [if_true]
+        exact tied_key_dropped today k x y d' ht K3 D3 A3 B3 K2 D2 A2 B2 h2 h2a h2b
+  | cons k1 K1 ih =>
+    cases D1 with
+    | nil => simp at h1
+    | cons d1 D1 =>
+    cases A1 with
+    | nil => simp at h1a
+    | cons a1 A1 =>
+    cases B1 with
+    | nil => simp at h1b
+    | cons b1 B1 =>
+      simp only [List.cons_append]
+      rw [criteriaLeL_cons, criteriaLeL_cons]
+      rw [ih D1 A1 B1 (by simpa using h1) (by simpa using h1a) (by simpa using h1b)]
 
 end Fsel.C05
